@@ -93,14 +93,35 @@ static std::string handle(const Toks & t)
     auto a = floats(t, 9); Eigen::Matrix3d c; fill(c, a, 0);
     Eigen::Matrix6d r = toSe3Covariance(c); emit(o, r); return o;
   }
-  if (op == "pose.to2d") { auto a = floats(t, 42); emitPose2(o, toPose2D(pose3(a, 0))); return o; }
-  if (op == "pose.topos3d") {
-    auto a = floats(t, 42); Position3D p = toPosition3D(pose3(a, 0)); emit(o, p.position); emit(o, p.covariance); return o;
+  // Every second conversion goes through the IN-PLACE overload into an output object that lives as long as the process and still
+  // holds the result of an earlier conversion: the conversions are functions of their input, an output parameter is overwritten
+  // entirely (seeded change c11e: the covariance selection skipped when the input covariance has zero trace — the reused output
+  // keeps the previous call's covariance)
+  static unsigned long conversions = 0;
+  const bool inPlace = (++conversions % 2 == 0);
+  if (op == "pose.to2d") {
+    auto a = floats(t, 42);
+    if (inPlace) { static Pose2D out; toPose2D(pose3(a, 0), out); emitPose2(o, out); } else { emitPose2(o, toPose2D(pose3(a, 0))); }
+    return o;
   }
-  if (op == "twist.to2d") { auto a = floats(t, 42); emitTwist2(o, toTwist2D(twist3(a, 0))); return o; }
+  if (op == "pose.topos3d") {
+    auto a = floats(t, 42);
+    static Position3D kept;
+    Position3D p;
+    if (inPlace) { toPosition3D(pose3(a, 0), kept); p = kept; } else { p = toPosition3D(pose3(a, 0)); }
+    emit(o, p.position); emit(o, p.covariance); return o;
+  }
+  if (op == "twist.to2d") {
+    auto a = floats(t, 42);
+    if (inPlace) { static Twist2D out; toTwist2D(twist3(a, 0), out); emitTwist2(o, out); } else { emitTwist2(o, toTwist2D(twist3(a, 0))); }
+    return o;
+  }
   if (op == "pt.to2d") {
     auto a = floats(t, 84); PoseAndTwist3D pt; pt.pose = pose3(a, 0); pt.twist = twist3(a, 42);
-    PoseAndTwist2D r = toPoseAndTwist2D(pt); emitPose2(o, r.pose); emitTwist2(o, r.twist); return o;
+    static PoseAndTwist2D kept;
+    PoseAndTwist2D r;
+    if (inPlace) { toPoseAndTwist2D(pt, kept); r = kept; } else { r = toPoseAndTwist2D(pt); }
+    emitPose2(o, r.pose); emitTwist2(o, r.twist); return o;
   }
   if (op == "pose.mul") {
     auto a = floats(t, 18); Pose3D p; fill(p.position, a, 12); fill(p.orientation, a, 15); return mul(a, p);
